@@ -3,7 +3,10 @@ Theorems (coq/Props/C03.v): gate-level frame identities and hand-off frame consi
 GenGates.v / GenCircuit.v; ring-generic circuit-level simulation theorem. Correspondence: the call sequence the real
 simulator issues to a recording gate set vs the sequence predicted from the regenerated tables (exact). Direct oracle: the
 real noise-free run vs Qiskit's Statevector marginals (tolerance 1e-9), all five classes, scattered labels and distant
-pairs for the index class, permuted first-touch order, measured subsets, entangled psi0, fix_counts key reversal."""
+pairs for the index class, permuted first-touch order, measured subsets, entangled psi0, fix_counts key reversal.
+Gap (iii), index class: Model/SimLoop.v (instruction loop -> method calls on internal indices) is compared exactly, inside Coq, with
+the recorded method calls and matrix placements of the real simulator (checks/c03_simloop.py: small-exhaustive, random and direct
+streams); C03_end_to_end composes it with C14 / C08 / the run theorems."""
 import sys, json
 import numpy as np
 from vlib.common import Check
@@ -14,6 +17,7 @@ def main(argv):
     import checks.sim_common as sc
     import checks.circuit_trace as ct
     import checks.gates_trace as gt
+    import checks.c03_simloop as sl
     from quantum_gates._gates.gates import noise_free_gates
     from quantum_gates._utility.simulations_utility import fix_counts
     ck.rule = ("obligations = theorems of Props/C03.v (+ regeneration of both traces, correspondence, oracle); a case = (class, labels, random native circuit, "
@@ -21,8 +25,10 @@ def main(argv):
     ck.trusted = ["Coq 8.16.1 kernel + vm_compute", "coq/Sym (sound reflective normaliser)", "tracers (gates_trace, circuit_trace)",
                   "Qiskit's Statevector / gate conventions (oracle side only)",
                   "whole noise-free runs: index class proved end to end from the builder model through the backend theorem (C03_builder_backend_run, C03_noise_free_born_*); "
-                  "layered classes from the stored layers on (C03_layered_builder_full is stated, not proved); the simulator loop from Qiskit instructions to method calls "
-                  "(layout, delay, barrier, measure, shots) is covered by the hand-off theorems of C08 plus the exact call-sequence correspondence and the oracle",
+                  "layered classes from the stored layers on (C03_layered_builder_full is stated, not proved); index class: the simulator loop from Qiskit instructions to method "
+                  "calls (layout, delay, barrier, measure, read-out) is Model/SimLoop.v, tied by exact correspondence of the recorded method calls, and composed end to end "
+                  "(C03_end_to_end); layered classes: that loop is covered by the hand-off theorems of C08 plus the exact call-sequence correspondence and the oracle; "
+                  "the mean over the shots of a deterministic gate set is C09",
                   "floating-point rounding outside the model"]
     rng = np.random.default_rng(ck.seed)
 
@@ -39,7 +45,14 @@ def main(argv):
 
     if ck.replay:
         doc = json.load(open(ck.replay))["replay"]
-        if "instrs" in doc:
+        if doc.get("family") == "simloop":
+            instrs = [(a, list(b), c) for a, b, c in doc["instrs"]]
+            rec = sl.run_recorded(instrs, doc["nphys"])
+            why, _ = sl.oracle(instrs, doc["nphys"], np.random.default_rng(ck.seed))
+            print("replay: recorded method calls", rec[1] if rec[0] == "ok" else rec)
+            print("replay: model's calls        ", doc.get("model"))
+            print("replay: noise-free run vs Qiskit ->", why or "holds")
+        elif "instrs" in doc:
             instrs = [(a, list(b), c) for a, b, c in doc["instrs"]]
             why = run_case(doc["cls"], doc["labels"], doc["nphys"], instrs, doc["meas"], np.array([complex(*z) for z in doc["psi0"]]))
             print("replay:", doc["cls"], doc["labels"], "->", why or "holds")
@@ -83,7 +96,8 @@ def main(argv):
                 first = {"cls": cls, "labels": labels, "nphys": nphys, "instrs": [[a, list(b), c] for a, b, c in instrs], "meas": meas,
                          "psi0": [[float(z.real), float(z.imag)] for z in psi0], "what": why}
             # correspondence of the call sequence (recording gate set, distinct tables)
-            if C is not None and t < (4 if ck.tier == "quick" else 20):
+            # (the layered branch is traced for n <= 4 only: circuit_trace.py; larger layered cases have no predicted table)
+            if C is not None and t < (4 if ck.tier == "quick" else 20) and (binary or n <= 4):
                 dev = sc.dev_distinct(nphys)
                 try:
                     log, _, _ = sc.run_spy(cls, labels, instrs, nphys, dev)
@@ -94,6 +108,63 @@ def main(argv):
                 ck.count("call_sequence_" + cls, 1)
                 if not same and corr_bad is None:
                     corr_bad = {"cls": cls, "labels": labels, "nphys": nphys, "instrs": [[a, list(b), c] for a, b, c in instrs]}
+    # ---- gap (iii): Model/SimLoop.v = the simulator's index-class loop, exactly (method calls, placements, exceptions) ----
+    sl_cases = [(ins, nphys, "exhaustive") for ins, nphys in sl.exhaustive_cases(2 if ck.tier == "quick" else 3)]
+    for _ in range(150 if ck.tier == "quick" else 1500):
+        ins, nphys = sl.random_case(rng); sl_cases.append((ins, nphys, "random"))
+    sl_terms = []; sl_res = []
+    for ins, nphys, fam in sl_cases:
+        r = sl.run_recorded(ins, nphys); sl_res.append(r)
+        sl_terms.append(sl.coq_case_run(ins, None, r))
+        ck.count("simloop_translate", 1, key=(fam, repr(ins)) if len(ins) > 1 else None,
+                 sample={"family": fam, "instrs": [list(map(str, i)) for i in ins[:8]], "calls": r[1][:4] if r[0] == "ok" else r[1]})
+    dir_cases = [sl.direct_case(rng, malformed=(t % 3 == 2)) for t in range(240 if ck.tier == "quick" else 2400)]
+    dir_terms = []
+    for raw, layout, nq, dom in dir_cases:
+        r = sl.run_direct(raw, layout, nq)
+        dir_terms.append(sl.coq_case_direct(raw, layout, nq, r))
+        ck.count("simloop_translate_direct" if dom else "simloop_translate_malformed", 1, key=(repr(raw), tuple(layout), nq) if raw else None,
+                 sample={"raw": [list(map(str, x)) for x in raw[:6]], "layout": layout, "nq": nq, "result": r[1][:4] if r[0] == "ok" else r[1]})
+    per = 400; shards = []
+    for s0 in range(0, len(sl_terms), per): shards.append(("c03_simloop_%d" % (s0 // per), sl.shard_run(sl_terms[s0:s0 + per]), "run", s0))
+    for s0 in range(0, len(dir_terms), per): shards.append(("c03_simdirect_%d" % (s0 // per), sl.shard_direct(dir_terms[s0:s0 + per]), "direct", s0))
+    sl_bad = []; sl_build = None
+    for (name, rc, out2), (_, _, kind, s0) in zip(ck.coq_eval_many([(a, b) for a, b, _, _ in shards]), shards):
+        idx = sl.parse_bad(out2) if rc == 0 else None
+        if idx is None:
+            sl_build = sl_build or (name, out2[-600:]); continue
+        for i in idx:
+            if kind == "run": sl_bad.append(("run", s0 + i))
+            elif dir_cases[s0 + i][3]: sl_bad.append(("direct", s0 + i))
+            else: ck.notes.append("SimLoop model and implementation differ on the out-of-domain stream %r (not a violation)" % (dir_cases[s0 + i][:3],))
+    ck.oblige("correspondence: recorded method calls + matrix placements of the real index-class loop == SimLoop.translate_calls in Coq (%d run cases, %d direct)"
+              % (len(sl_terms), len(dir_terms)), not sl_bad and sl_build is None)
+    ck.oblige("NoiseFreeGates.relaxation / bitflip return exactly the 2x2 identity (the calls nf_prog drops)", sl.identity_gates_exact())
+    sl_report = None
+    if sl_bad or sl_build:
+        # search for a failing input of the property itself: first on the mismatching circuits, then on the other generated circuits
+        cand = [sl_cases[i][:2] for k, i in sl_bad if k == "run"][:40] + [c[:2] for c in sl_cases[::7]][:60]
+        found = None
+        for ins, nphys in cand:
+            why, psi0 = sl.oracle(ins, nphys, rng, tries=2)
+            if why:
+                found = {"family": "simloop", "cls": "BinaryCircuit", "labels": sl.used_labels(ins), "nphys": nphys, "instrs": [[a, list(b), c] for a, b, c in ins],
+                         "psi0": [[float(z.real), float(z.imag)] for z in psi0], "what": why}
+                break
+        if found:
+            sl_report = ("oracle:simloop", "BinaryCircuit %s: %s (instruction loop differs from Model/SimLoop.v)" % (found["labels"], found["what"]), found, True)
+        elif sl_bad:
+            k, i = sl_bad[0]
+            if k == "run":
+                ins, nphys, fam = sl_cases[i]
+                doc = {"family": "simloop", "correspondence": "C03 simloop_translate (%s)" % fam, "nphys": nphys, "instrs": [[a, list(b), c] for a, b, c in ins], "impl": sl_res[i]}
+            else:
+                raw, layout, nq, _ = dir_cases[i]
+                doc = {"correspondence": "C03 simloop_translate_direct", "raw": raw, "layout": layout, "nq": nq}
+            sl_report = ("corr:simloop", "the real instruction loop issues other method calls than Model/SimLoop.v on %s; C03_end_to_end no longer speaks about this code "
+                         "(the noise-free oracle passes on every explored input)" % (doc.get("instrs") or doc.get("raw")), doc, False)
+        else:
+            sl_report = ("corr-build:simloop", "correspondence file failed to compile: %s" % (sl_build,), {"correspondence": sl_build[0], "log": sl_build[1]}, False)
     # thorough: the bundled benchmark circuits transpiled offline against fake backends (cx and ecr bases, linear and scattered layouts)
     if ck.tier == "thorough":
         import io, contextlib
@@ -136,6 +207,8 @@ def main(argv):
         ck.report("proof:" + str(failing), "proof obligation / regeneration no longer checks: %s" % failing, {"theorem": str(failing), "log": (out or "")[-1500:]}, False)
     elif corr_bad:
         ck.report("corr", "real call sequence differs from the model's prediction on %s %s" % (corr_bad["cls"], corr_bad["labels"]), dict(corr_bad, correspondence="C03 call sequence"), False)
+    elif sl_report:
+        ck.report(*sl_report)
     return ck.finish()
 
 
